@@ -37,6 +37,21 @@ Lemma consts_shape_ok :
   clean_expires_trunc = second /\ clean_expires_add = second.
 Proof. repeat split; reflexivity. Qed.
 
+(** who cleans (translator item emitC18Callers): inside the package nothing calls CleanStorage (no timer path:
+    a cleaning starts only when the application calls it, e.g. Caddy's cleanStorageRegularly), and CleanStorage
+    is the only user of its two helpers -- so they run under the storage_clean lock taken by CleanStorage,
+    as modelled; the storage is mutated at two Delete sites in each helper and one Store site in
+    CleanStorage, the lock is taken and released once, through acquireLock / releaseLock *)
+Definition spec_clean_storage_name : str := [67; 108; 101; 97; 110; 83; 116; 111; 114; 97; 103; 101]%N. (* "CleanStorage" *)
+Lemma consts_callers_ok :
+  clean_users_CleanStorage = [] /\
+  clean_users_deleteOldOCSPStaples = [spec_clean_storage_name] /\
+  clean_users_deleteExpiredCerts = [spec_clean_storage_name] /\
+  clean_sites_Delete = [0; 2; 2]%nat /\ clean_sites_Store = [1; 0; 0]%nat /\
+  clean_sites_acquireLock = [1; 0; 0]%nat /\ clean_sites_releaseLock = [1; 0; 0]%nat /\
+  clean_sites_Lock = [0; 0; 0]%nat /\ clean_sites_Unlock = [0; 0; 0]%nat.
+Proof. repeat split; reflexivity. Qed.
+
 (** * Strings *)
 Lemma seqb_eq a b : seqb a b = true <-> a = b.
 Proof.
